@@ -77,11 +77,16 @@ def set_variant(msg, variant):
         msg.opt.request_tag = [b"T"]
     elif variant == "@acc":
         msg.opt.accept = 0
+    elif variant in ("@q2a", "@q2b"):
+        # a repeatable cache-key option: two operations that differ in a value that is not the last one
+        msg.opt.uri_query = ["job=1" if variant == "@q2a" else "job=2", "part=x"]
     else:
         msg.opt.uri_query = [variant]
 
 
 def qtuple(variant):
+    if variant in ("@q2a", "@q2b"):
+        return ("job=1" if variant == "@q2a" else "job=2", "part=x")
     return (variant,) if variant and not variant.startswith("@") else ()
 
 
@@ -288,6 +293,7 @@ def ops_b1():
             # the same transfer under another cache-key option (Request-Tag, Accept) is another transfer
             ("b1", 1, 0, 1, 0, 16, "a", "@tag", "PUT"), ("b1", 1, 1, 0, 0, 16, "a", "@tag", "PUT"),
             ("b1", 1, 1, 0, 0, 16, "a", "@acc", "PUT"),
+            ("b1", 1, 0, 1, 0, 16, "a", "@q2a", "PUT"), ("b1", 1, 0, 1, 0, 16, "a", "@q2b", "PUT"), ("b1", 1, 1, 0, 0, 16, "a", "@q2a", "PUT"),
             ("t", MTW - 0.1), ("t", MTW + 0.2), ("t", 2 * MTW + 0.1)]
     return ops
 
@@ -298,6 +304,7 @@ def ops_b2():
         for szx in (0, 1, 2):
             ops.append(("b2", 1, num, szx))
     ops += [("b2", 2, 0, 0), ("b2", 2, 1, 0), ("b2", 3, 1, 0), ("b2", 1, 0, 0, "@tag"), ("b2", 1, 1, 0, "@tag"), ("b2", 1, 1, 0, "@acc"),
+            ("b2", 1, 0, 0, "@q2a"), ("b2", 1, 1, 0, "@q2b"),
             ("t", MTW - 0.1), ("t", MTW + 0.2), ("t", 2 * MTW + 0.1)]
     return ops
 
